@@ -339,6 +339,18 @@ def build() -> dict:
         if pid not in CLAIMS:
             continue
         tech, text, note, ref = CLAIMS[pid]
+        # the rules as built (session 2 added clauses; DESIGN.md §7.7): taken from the evidence the check wrote
+        try:
+            ev = json.loads((VERIF / "evidence" / f"{pid}.json").read_text())
+            rules = ev["coverage"].get("rules", {})
+            listed = "; ".join(f"{rid}: {' '.join(str(r.get('text', '')).split())}" for rid, r in rules.items() if r.get("text"))
+            if listed:
+                text = text + " Rules decided on every run (as built, see DESIGN.md §7.2/§7.7): " + listed + "."
+            und = ev["coverage"].get("not_decided") or []
+            if und:
+                text = text + " Not decided: " + "; ".join(" ".join(str(x).split()) for x in und) + "."
+        except (OSError, KeyError, ValueError):
+            pass
         checks.append({
             "property_id": pid,
             "quick_cmd": f"./check {pid} --tier quick",
